@@ -127,7 +127,7 @@ impl<'a, 'tcx> Cx<'a, 'tcx> {
     fn const_bytes(&self, c: &Const<'tcx>) -> Option<Vec<u8>> {
         let tcx = self.tcx;
         let ty = c.ty();
-        let inner = match ty.kind() {
+        let mut inner = match ty.kind() {
             ty::Ref(_, inner, _) => *inner,
             _ => return None,
         };
@@ -144,16 +144,55 @@ impl<'a, 'tcx> Cx<'a, 'tcx> {
                 let n = meta as usize;
                 Some(a.inspect_with_uninit_and_ptr_outside_interpreter(0..n).to_vec())
             }
-            (ty::Array(e, len), ConstValue::Scalar(mir::interpret::Scalar::Ptr(ptr, _))) => {
-                if *e != tcx.types.u8 {
-                    return None;
-                }
-                let n = len.try_to_target_usize(tcx)? as usize;
+            (_, ConstValue::Scalar(mir::interpret::Scalar::Ptr(ptr, _))) => {
+                // `&[u8; N]`, or `&&[u8; N]` / `&&&[u8; N]` (promoted operands of comparisons): follow the pointers
                 let (prov, off) = ptr.into_raw_parts();
-                let alloc = tcx.global_alloc(prov.alloc_id()).unwrap_memory();
-                let a = alloc.inner();
-                let o = off.bytes_usize();
-                Some(a.inspect_with_uninit_and_ptr_outside_interpreter(o..o + n).to_vec())
+                let mut alloc_id = prov.alloc_id();
+                let mut o = off.bytes_usize();
+                for _ in 0..3 {
+                    match inner.kind() {
+                        ty::Ref(_, next, _) => {
+                            let alloc = match tcx.global_alloc(alloc_id) {
+                                rustc_middle::mir::interpret::GlobalAlloc::Memory(m) => m,
+                                _ => return None,
+                            };
+                            let a = alloc.inner();
+                            let psz = tcx.data_layout.pointer_size().bytes_usize();
+                            if o + psz > a.len() {
+                                return None;
+                            }
+                            let mut found = None;
+                            for (poff, pprov) in a.provenance().ptrs().iter() {
+                                if poff.bytes_usize() == o {
+                                    found = Some(pprov.alloc_id());
+                                }
+                            }
+                            let raw = a.inspect_with_uninit_and_ptr_outside_interpreter(o..o + psz);
+                            let mut buf = [0u8; 8];
+                            buf[..psz.min(8)].copy_from_slice(&raw[..psz.min(8)]);
+                            o = u64::from_le_bytes(buf) as usize;
+                            alloc_id = found?;
+                            inner = *next;
+                        }
+                        _ => break,
+                    }
+                }
+                if let ty::Array(e, len) = inner.kind() {
+                    if *e != tcx.types.u8 {
+                        return None;
+                    }
+                    let n = len.try_to_target_usize(tcx)? as usize;
+                    let alloc = match tcx.global_alloc(alloc_id) {
+                        rustc_middle::mir::interpret::GlobalAlloc::Memory(m) => m,
+                        _ => return None,
+                    };
+                    let a = alloc.inner();
+                    if o + n > a.len() {
+                        return None;
+                    }
+                    return Some(a.inspect_with_uninit_and_ptr_outside_interpreter(o..o + n).to_vec());
+                }
+                None
             }
             _ => None,
         }
@@ -197,10 +236,45 @@ impl<'a, 'tcx> Cx<'a, 'tcx> {
         if let Some(b) = self.const_bytes(c) {
             return format!("{{\"bytes\":\"{}\",\"ty\":{}}}", hex(&b), self.ty_s(ty));
         }
+        if let Some(r) = self.const_ref_raw(c) {
+            return format!("{{\"refraw\":\"{}\",\"ty\":{}}}", hex(&r), self.ty_s(ty));
+        }
         if let Some(st) = self.const_struct(c) {
             return format!("{{\"struct\":{},\"ty\":{}}}", st, self.ty_s(ty));
         }
         format!("{{\"s\":{},\"ty\":{}}}", esc(&format!("{}", c)), self.ty_s(ty))
+    }
+
+    /// `&[T; N]` constants of plain data up to 4 KiB (e.g. a promoted `&ENCODING_TABLE`): the raw bytes.
+    fn const_ref_raw(&self, c: &Const<'tcx>) -> Option<Vec<u8>> {
+        let tcx = self.tcx;
+        let inner = match c.ty().kind() {
+            ty::Ref(_, inner, _) => *inner,
+            _ => return None,
+        };
+        if !matches!(inner.kind(), ty::Array(..)) {
+            return None;
+        }
+        let layout = tcx.layout_of(TypingEnv::fully_monomorphized().as_query_input(inner)).ok()?;
+        let n = layout.size.bytes_usize();
+        if n == 0 || n > 4096 {
+            return None;
+        }
+        let val = c.eval(tcx, self.tenv, rustc_span::DUMMY_SP).ok()?;
+        if let ConstValue::Scalar(mir::interpret::Scalar::Ptr(ptr, _)) = val {
+            let (prov, off) = ptr.into_raw_parts();
+            let alloc = match tcx.global_alloc(prov.alloc_id()) {
+                rustc_middle::mir::interpret::GlobalAlloc::Memory(m) => m,
+                _ => return None,
+            };
+            let a = alloc.inner();
+            let o = off.bytes_usize();
+            if !a.provenance().ptrs().is_empty() || o + n > a.len() {
+                return None;
+            }
+            return Some(a.inspect_with_uninit_and_ptr_outside_interpreter(o..o + n).to_vec());
+        }
+        None
     }
 
     /// `&<integer>` constants (promoted literals such as the `0` in `format!("{:>010}", 0)`).
